@@ -50,6 +50,11 @@ func drawValidate(t *rapid.T) sim.ChainCase {
 						if sim.HostileCoveredFields(g.T, &blk.Transactions[rapid.IntRange(0, len(blk.Transactions)-1).Draw(g.T, "cfTxn")]) {
 							desc = "covered-fields-out-of-range; "
 						}
+					} else if rapid.IntRange(0, 5).Draw(g.T, "shape") == 0 {
+						desc = sim.HostileShape(g.T, &blk, &sup)
+						if rapid.Bool().Draw(g.T, "shapeAndValue") {
+							desc += sim.HostileMutate(g.T, &blk, &sup)
+						}
 					} else if rapid.IntRange(0, 5).Draw(g.T, "crossKind") == 0 {
 						desc = sim.HostileCrossKindID(g.T, cs, &blk, rapid.Bool().Draw(g.T, "padAttest"))
 						if desc == "" {
